@@ -1,4 +1,5 @@
 import LP.Props.C01
+import LP.Props.C01Deriv
 #print axioms LP.Mono.toFinsupp_norm
 #print axioms LP.MPoly.den_normalize
 #print axioms LP.MPoly.C01_add
@@ -14,3 +15,6 @@ import LP.Props.C01
 #print axioms LP.MPoly.C01_evalInt
 #print axioms LP.C01_Z
 #print axioms LP.C01_ZMod
+#print axioms LP.MPoly.C01_derivative
+#print axioms LP.C01_derivative_Z
+#print axioms LP.C01_derivative_ZMod
